@@ -318,6 +318,14 @@ def main(args):
             if a[0] == b[0]:
                 continue
             units.append({'module': 'stdnum.gs1_128', 'ais': [a, b], 'L': 0, 'variants': [0, 2], 'max_paths': 200, 'timeout': 40, 'options': {'ai': a[0] + '+' + b[0]}})
+    if getattr(args, 'units_only', False):
+        return units
+    if tier != 'quick':
+        # thorough = the quick tier's units first (larger caps), then everything else while the budget lasts
+        import copy
+        qa = copy.copy(args)
+        qa.tier, qa.units_only = 'quick', True
+        units = common.plan_thorough(units, main(qa))
     rep = common.Report('C16', tier)
     rep.assumptions = ASSUMPTIONS
     rep.bounds = {'application_identifiers': len(entries), 'pairs': len([u for u in units if len(u['ais']) > 1])}
@@ -327,6 +335,6 @@ def main(args):
         if args.verbose:
             u = res['unit']
             print('[%d/%d] %s %s %s unknown=%s viol=%d' % (done, total, u['options'], res.get('outcomes', res.get('error', res.get('skipped'))), res.get('wall_s'), res.get('unknown'), len(res.get('violations', []))), file=sys.stderr)
-    for res in common.run_units(unit_fn, common.shuffle_units(units), 200 if tier == 'quick' else 1500, progress, deadline):
+    for res in common.run_units(unit_fn, common.shuffle_units(units), (lambda u: u.get('timeout', 100) * 2 + 120), progress, deadline):
         rep.add_unit(res)
     return rep.finish()
